@@ -56,3 +56,6 @@ int g_wf_bad, g_wf_private, g_wf_maxlen, g_ec_degree;
 /* C16 __item_free unit: the two neighbours of the node (assigned by the harness) */
 #include "ll.h"
 ll_t *g_nb_prev, *g_nb_next;
+
+/* strlen hint (stubs/libc.c, -DVERIF_STRLEN_HINT): the length of one designated input string */
+const char *g_strlen_hint_s; size_t g_strlen_hint_n;
